@@ -47,11 +47,24 @@ ENGINE = "verif_c19"
 ITEM_TEXTS = ("a", "b", "", "c")     # items of the search index; every requested text is one of them
 HOLD = 0.01
 KIND = {"B": "batch", "G": "list", "S": "search"}
+MODELS = ("verif", "verif6")         # embedding_model names; index i of a configuration uses MODELS[i]
 
 
-def vec(text):
-    d = hashlib.sha256(("C19|" + text).encode("utf-8")).digest()
+def vec(text, model="verif"):
+    """the fake embedding model: what model `model` gives for `text`"""
+    seed = "C19|" + text if model == "verif" else f"C19|{model}|{text}"
+    d = hashlib.sha256(seed.encode("utf-8")).digest()
     return [(b - 127.5) / 127.5 for b in d[:6]]
+
+
+def norm_reqs(reqs):
+    """request = (kind, payload, round, index number); the index number may be left out (0)"""
+    out = []
+    for r in reqs:
+        kind, payload, rnd = r[0], r[1], r[2]
+        which = r[3] if len(r) > 3 else 0
+        out.append((kind, tuple(payload) if isinstance(payload, (list, tuple)) else payload, rnd, which))
+    return out
 
 
 # ------------------------------------------------------------------ library + fake provider
@@ -80,37 +93,44 @@ def lib():
         async def encode_async(self, documents):
             w = _CUR
             docs = list(documents)               # what a real model is sent at call time
+            m = self.model
             if w is None or w.auto:
-                return [vec(t) for t in docs]
+                return [vec(t, m) for t in docs]
             j = len(w.calls)
             w.calls.append(docs)
             await w.env.external(("model", j))
-            return [vec(t) for t in docs]        # fresh list objects every time
+            return [vec(t, m) for t in docs]     # fresh list objects every time
 
         def encode(self, documents):
-            return [vec(t) for t in documents]
+            return [vec(t, self.model) for t in documents]
 
     register_embedding_provider(VerifEmbeddingModel)
-    pre = AnnoyIndex(6, "angular")
-    for i, t in enumerate(ITEM_TEXTS):
-        pre.add_item(i, vec(t))
-    pre.build(10)
-    for i, t in enumerate(ITEM_TEXTS):          # the search oracle is sound: own vector -> own item, alone
-        if pre.get_nns_by_vector(vec(t), 1) != [i]:
-            raise RuntimeError("HARNESS: the model vectors do not separate the index items")
+    pre = {}
+    for m in MODELS:
+        pre[m] = AnnoyIndex(6, "angular")
+        for i, t in enumerate(ITEM_TEXTS):
+            pre[m].add_item(i, vec(t, m))
+        pre[m].build(10)
+        for i, t in enumerate(ITEM_TEXTS):      # the search oracle is sound: own vector -> own item, alone
+            if pre[m].get_nns_by_vector(vec(t, m), 1) != [i]:
+                raise RuntimeError("HARNESS: the model vectors do not separate the index items")
+            for m2 in MODELS:                   # and a vector of the other model is told apart by search
+                if m2 != m and pre[m].get_nns_by_vector(vec(t, m2), 1) == [i]:
+                    raise RuntimeError("HARNESS: the two models are not told apart by search")
     _LIB = {"Index": basic.BasicEmbeddingsIndex, "Item": IndexItem, "Cache": cache.EmbeddingsCache,
             "CacheConfig": EmbeddingsCacheConfig, "prebuilt": pre}
     return _LIB
 
 
 class World:
-    __slots__ = ("env", "cfg", "idx", "calls", "auto", "max_queue", "max_results_table", "max_inflight",
+    __slots__ = ("env", "cfg", "idx", "indexes", "calls", "auto", "max_queue", "max_results_table", "max_inflight",
                  "full_wait")
 
     def __init__(self, env, cfg):
         self.env = env
         self.cfg = cfg
-        self.idx = None
+        self.idx = None         # the first index
+        self.indexes = []
         self.calls = []
         self.auto = False
         self.max_queue = 0
@@ -129,7 +149,8 @@ def _clear_dir(d):
 def maker(cfg, scratch):
     """-> make(env) building one fresh world for configuration cfg"""
     L = lib()
-    reqs = [(k, tuple(p) if isinstance(p, (list, tuple)) else p, r) for k, p, r in cfg["reqs"]]
+    reqs = norm_reqs(cfg["reqs"])
+    n_idx = 1 + max(r[3] for r in reqs)
     cache = cfg.get("cache")
     items = [L["Item"](text=t, meta={"i": i}) for i, t in enumerate(ITEM_TEXTS)]
 
@@ -146,29 +167,34 @@ def maker(cfg, scratch):
         else:
             cc = L["CacheConfig"](enabled=False)
         api = cfg.get("build") == "api"
-        idx = L["Index"](
-            embedding_model="verif", embedding_engine=ENGINE, index=None if api else L["prebuilt"],
-            cache_config=cc, use_batching=bool(cfg.get("use_batching", True)),
-            max_batch_size=cfg["mbs"], max_batch_hold=HOLD,
-        )
-        w.idx = idx
+        # several indexes = several embedding models configured with the same cache settings (as the core and
+        # the knowledge-base search providers of one app are, or the same app before / after a model change)
+        for i in range(n_idx):
+            w.indexes.append(L["Index"](
+                embedding_model=MODELS[i], embedding_engine=ENGINE, index=None if api else L["prebuilt"][MODELS[i]],
+                cache_config=cc, use_batching=bool(cfg.get("use_batching", True)),
+                max_batch_size=cfg["mbs"], max_batch_hold=HOLD,
+            ))
+        w.idx = w.indexes[0]
         w.auto = True
         if cache and cfg.get("prewarm"):
-            ec = L["Cache"].from_config(idx.cache_config)
+            ec = L["Cache"].from_config(w.idx.cache_config)
             for t in cfg["prewarm"]:
                 ec.set(t, vec(t))
-        env.run_now(idx.add_items(list(items)))     # prebuilt: only the item table; api: embeds all items
-        if api:
-            env.run_now(idx.build())
+        for idx in w.indexes:
+            env.run_now(idx.add_items(list(items)))     # prebuilt: only the item table; api: embeds all items
+            if api:
+                env.run_now(idx.build())
         w.auto = False
-        first = [k for k, (_kd, _p, r) in enumerate(reqs) if r == 1]
-        for k, (kind, payload, rnd) in enumerate(reqs):
+        first = [k for k, r in enumerate(reqs) if r[2] == 1]
+        for k, (kind, payload, rnd, which) in enumerate(reqs):
+            idx = w.indexes[which]
             if kind == "B":
-                f = (lambda p=payload: idx._batch_get_embeddings(p))
+                f = (lambda p=payload, idx=idx: idx._batch_get_embeddings(p))
             elif kind == "G":
-                f = (lambda p=payload: idx._get_embeddings(list(p)))
+                f = (lambda p=payload, idx=idx: idx._get_embeddings(list(p)))
             else:
-                f = (lambda p=payload: idx.search(p, max_results=1))
+                f = (lambda p=payload, idx=idx: idx.search(p, max_results=1))
             twins = [j for j in range(k) if reqs[j] == reqs[k]]
 
             def gate(twins=twins, rnd=rnd, arr=env._arrivals, res=env.results):
@@ -188,20 +214,21 @@ def maker(cfg, scratch):
 
 
 def on_step(env, w):
-    n = len(w.idx._req_queue)
-    if n > w.max_queue:
-        w.max_queue = n
-    n = len(w.idx._req_results)
-    if n > w.max_results_table:
-        w.max_results_table = n
+    for idx in w.indexes:
+        n = len(idx._req_queue)
+        if n > w.max_queue:
+            w.max_queue = n
+        n = len(idx._req_results)
+        if n > w.max_results_table:
+            w.max_results_table = n
+        if idx._current_batch_submitted._waiters:
+            w.full_wait = True
     n = 0
     for x in env._externals:
         if not x[1].done():
             n += 1
     if n > w.max_inflight:
         w.max_inflight = n
-    if w.idx._current_batch_submitted._waiters:
-        w.full_wait = True
 
 
 # ------------------------------------------------------------------ oracle
@@ -213,35 +240,40 @@ def _same(v, ref):
     return _is_vec(v) and list(v) == ref
 
 
-def _whose(v, others):
+def _whose(v, others, model="verif"):
     """name the text whose model vector v is"""
     if v is None:
         return "none"
     if not _is_vec(v):
         return "not-a-vector"
     for t in ITEM_TEXTS:
-        if list(v) == vec(t):
+        if list(v) == vec(t, model):
             return "vector-of-another-request" if t in others else "vector-of-an-unrequested-text"
+    for m in MODELS:
+        if m != model and any(list(v) == vec(t, m) for t in ITEM_TEXTS):
+            return "vector-of-another-model"
     return "unknown-vector"
 
 
 def vname(v):
     """a vector, named when it is the model vector of a known text"""
     if _is_vec(v):
-        for t in ITEM_TEXTS:
-            if list(v) == vec(t):
-                return f"model({t!r})"
+        for m in MODELS:
+            for t in ITEM_TEXTS:
+                if list(v) == vec(t, m):
+                    return f"model({t!r})" if m == MODELS[0] else f"{m}({t!r})"
     if isinstance(v, (list, tuple)) and v and all(isinstance(x, (list, tuple)) or x is None for x in v):
         return "[" + ", ".join(vname(x) for x in v) + "]"
     return repr(v)
 
 
-def req_name(k, kind, payload):
+def req_name(k, kind, payload, which=0):
+    on = f" on index {which} (embedding_model {MODELS[which]!r})" if which else ""
     if kind == "B":
-        return f"request {k} _batch_get_embeddings({payload!r})"
+        return f"request {k} _batch_get_embeddings({payload!r}){on}"
     if kind == "G":
-        return f"request {k} _get_embeddings({list(payload)!r})"
-    return f"request {k} search({payload!r}, max_results=1)"
+        return f"request {k} _get_embeddings({list(payload)!r}){on}"
+    return f"request {k} search({payload!r}, max_results=1){on}"
 
 
 def render(kind, res):
@@ -263,12 +295,13 @@ def render(kind, res):
         return {"value": repr(v)}
 
 
-def expected(kind, payload):
+def expected(kind, payload, which=0):
+    m = MODELS[which]
     if kind == "S":
         return {"items": [payload]}
     if kind == "B":
-        return {"vector": vec(payload)}
-    return {"vectors": [vec(t) for t in payload]}
+        return {"vector": vec(payload, m)}
+    return {"vectors": [vec(t, m) for t in payload]}
 
 
 def _raise_site(e):
@@ -282,8 +315,8 @@ def _raise_site(e):
     return site
 
 
-def _blocked_at(w, names, fut):
-    idx = w.idx
+def _blocked_at(w, names, fut, which=0):
+    idx = w.indexes[which]
     inner = [n.split(".")[-1] for n in names if "Env._wrap" not in n]
     fn = next((n for n in reversed(inner) if n not in ("wait", "sleep")), inner[-1] if inner else "?")
     what = "future"
@@ -302,7 +335,7 @@ def _blocked_at(w, names, fut):
 def judge(cfg, env, w, info):
     """-> [(signature, what)] for one finished execution"""
     out = []
-    reqs = cfg["reqs"]
+    reqs = norm_reqs(cfg["reqs"])
     outcome = info["outcome"]
     bg = env.background_failures()
     bgs = ""
@@ -311,17 +344,18 @@ def judge(cfg, env, w, info):
     bgtxt = "".join(f"; background task {n} died with {type(e).__name__}: {e}" for n, e in bg)
     started = {lab[1] for lab in info["trace"] if lab[0] == "start"}
     all_texts = []
-    for kind, payload, _r in reqs:
+    for kind, payload, _r, _w in reqs:
         all_texts.extend(payload if kind == "G" else [payload])
     if outcome in ("horizon", "spin"):
         out.append((f"non-termination:{outcome}", f"the execution was stopped: {env.horizon}{bgtxt}"))
-    for k, (kind, payload, _rnd) in enumerate(reqs):
+    for k, (kind, payload, _rnd, which) in enumerate(reqs):
         res = env.results.get(k)
-        name = req_name(k, kind, payload)
+        name = req_name(k, kind, payload, which)
+        model = MODELS[which]
         if res is None:
             if k in started and outcome == "stuck":
                 names, fut = env.where_blocked(k)
-                at = _blocked_at(w, names, fut)
+                at = _blocked_at(w, names, fut, which)
                 out.append((f"no-completion:{KIND[kind]}:{at}{bgs}",
                             f"{name} never completes: no timer, model call or arrival is pending and it is "
                             f"still waiting ({' > '.join(names[1:])}){bgtxt}"))
@@ -336,13 +370,13 @@ def judge(cfg, env, w, info):
             continue
         v = res[1]
         if kind == "B":
-            if not _same(v, vec(payload)):
+            if not _same(v, vec(payload, model)):
                 others = [t for t in all_texts if t != payload]
-                how = _whose(v, others)
+                how = _whose(v, others, model)
                 out.append((f"wrong-vector:batch:{how}",
-                            f"{name} returned {vname(v)}, not model({payload!r})"))
+                            f"{name} returned {vname(v)}, not {vname(vec(payload, model))}"))
         elif kind == "G":
-            exp = [vec(t) for t in payload]
+            exp = [vec(t, model) for t in payload]
             if not isinstance(v, (list, tuple)):
                 out.append(("wrong-vector:list:not-a-list", f"{name} returned {v!r}"))
             elif len(v) != len(exp):
@@ -352,45 +386,55 @@ def judge(cfg, env, w, info):
                     how = "permuted"
                 else:
                     i = next(i for i, (x, e) in enumerate(zip(v, exp)) if not _same(x, e))
-                    how = _whose(v[i], [t for t in all_texts if t != payload[i]])
+                    how = _whose(v[i], [t for t in all_texts if t != payload[i]], model)
                 out.append((f"wrong-vector:list:{how}",
                             f"{name} returned {vname(list(v))}, expected {vname(exp)}"))
         else:
             texts = [getattr(i, "text", None) for i in v] if isinstance(v, (list, tuple)) else None
             if texts != [payload]:
                 how = "wrong-count" if texts is None or len(texts) != 1 else "item-of-another-text"
+                if how == "item-of-another-text" and len(w.indexes) > 1 and texts[0] in ITEM_TEXTS:
+                    # the vector itself is not visible: is the item the one another model's vector would find?
+                    found = [ITEM_TEXTS.index(texts[0])]
+                    pre = lib()["prebuilt"][model]
+                    if any(pre.get_nns_by_vector(vec(payload, m), 1) == found for m in MODELS if m != model):
+                        how = "vector-of-another-model"
                 out.append((f"wrong-vector:search:{how}",
                             f"{name} found {texts!r}; the query's own embedding finds exactly [{payload!r}]"))
     if outcome == "done":
-        idx = w.idx
-        if idx._req_queue:
-            out.append(("leftover:_req_queue", f"all requests are done but _req_queue still holds {idx._req_queue!r}"))
-        if idx._req_results:
-            out.append(("leftover:_req_results",
-                        f"all requests are done but _req_results still holds results for ids {sorted(idx._req_results)!r}"))
+        for idx in w.indexes:
+            if idx._req_queue:
+                out.append(("leftover:_req_queue",
+                            f"all requests are done but _req_queue still holds {idx._req_queue!r}"))
+            if idx._req_results:
+                out.append(("leftover:_req_results", f"all requests are done but _req_results still holds "
+                                                     f"results for ids {sorted(idx._req_results)!r}"))
+    # one class whatever the kind of request: a vector computed by another embedding model came out of the cache
+    out = [("wrong-vector:vector-of-another-model-from-shared-cache", what) if sig.endswith(":vector-of-another-model")
+           else (sig, what) for sig, what in out]
     if outcome == "stuck" and not out:
         raise RuntimeError(f"HARNESS: execution stuck without an unfinished started request: {info['trace']!r}")
     return out
 
 
 def observe(env, w):
-    reqs = w.cfg["reqs"]
+    reqs = norm_reqs(w.cfg["reqs"])
     return (
         tuple(env.trace),
         repr([render(reqs[k][0], env.results.get(k)) for k in range(len(reqs))]),
         repr(w.calls),
-        repr(sorted(w.idx._req_queue.items())), repr(sorted(w.idx._req_results)), w.idx._req_idx,
+        repr([(sorted(i._req_queue.items()), sorted(i._req_results), i._req_idx) for i in w.indexes]),
         w.env.loop._vseq, w.env.loop.handles_run,
     )
 
 
 def replay_dict(cfg, env, w, info):
-    reqs = cfg["reqs"]
+    reqs = norm_reqs(cfg["reqs"])
     return {
         "config": public_cfg(cfg),
         "schedule": [list(x) for x in info["trace"]],
         "outcome": info["outcome"],
-        "expected": {str(k): expected(kd, p) for k, (kd, p, _r) in enumerate(reqs)},
+        "expected": {str(k): expected(kd, p, wh) for k, (kd, p, _r, wh) in enumerate(reqs)},
         "observed": {str(k): render(reqs[k][0], env.results.get(k)) for k in range(len(reqs))},
         "model_calls": [list(c) for c in w.calls],
     }
@@ -412,9 +456,9 @@ def explore(task):
     cfg = task
     scratch = os.path.join(cfg["scratch"], f"c{cfg['id']}")
     make = maker(cfg, scratch)
-    reqs = cfg["reqs"]
-    n_texts = sum(len(p) if kd == "G" else 1 for kd, p, _r in reqs)
-    batched = [k for k, (kd, _p, _r) in enumerate(reqs) if kd == "B" or (kd == "S" and cfg.get("use_batching", True))]
+    reqs = cfg["reqs"] = norm_reqs(cfg["reqs"])
+    n_texts = sum(len(p) if kd == "G" else 1 for kd, p, _r, _w in reqs)
+    batched = [k for k, r in enumerate(reqs) if r[0] == "B" or (r[0] == "S" and cfg.get("use_batching", True))]
     counts = {
         "schedules": 0, "schedules_with_shared_batch": 0, "schedules_with_batch_dispatched_full": 0,
         "schedules_with_queue_full_wait": 0, "schedules_with_cache_hit": 0, "schedules_nontrivial": 0,
@@ -440,7 +484,7 @@ def explore(task):
         shared = w.max_queue >= 2
         full = cancelled > 0 and bool(batched) and cfg["mbs"] > 1
         got = sum(len(c) for c in w.calls)
-        done_texts = sum((len(p) if kd == "G" else 1) for k, (kd, p, _r) in enumerate(reqs) if k in env.results)
+        done_texts = sum((len(r[1]) if r[0] == "G" else 1) for k, r in enumerate(reqs) if k in env.results)
         hit = bool(cfg.get("cache")) and info["outcome"] == "done" and got < n_texts
         counts["schedules_with_concurrent_model_calls"] += w.max_inflight >= 2
         counts["schedules_with_queue_full_wait"] += w.full_wait
@@ -456,7 +500,7 @@ def explore(task):
             for t in c:
                 asked[t] = asked.get(t, 0) + 1
         wanted = {}
-        for k, (kd, p, _r) in enumerate(reqs):
+        for kd, p, _r, _w in reqs:
             for t in (p if kd == "G" else [p]):
                 wanted[t] = wanted.get(t, 0) + 1
         if any(n > wanted.get(t, 0) for t, n in asked.items()):
@@ -466,7 +510,8 @@ def explore(task):
         probs = judge(cfg, env, w, info)
         if probs:
             counts["violating_schedules"] += 1
-            size = (len(reqs), 1 if cfg.get("cache") else 0, 0 if cfg.get("build") != "api" else 1,
+            size = (0 if cfg.get("granularity", "quiescence") == "quiescence" else 1, len(reqs),
+                    1 if cfg.get("cache") else 0, 0 if cfg.get("build") != "api" else 1,
                     len(trace), info["deviations"])
             for sig, what in probs:
                 cur = viol.get(sig)
@@ -484,13 +529,19 @@ def explore(task):
                             "results_equal_model": True})
 
     total = {"states": 0, "transitions": 0, "choices_executed": 0, "handles_run": 0, "executor_calls": 0,
-             "traces_validated_against_impl": 0, "max_depth": 0, "max_enabled_choices": 0}
+             "traces_validated_against_impl": 0, "max_depth": 0, "max_enabled_choices": 0,
+             "max_deviations_in_a_schedule": 0}
     result = {"id": cfg["id"], "complete": True, "exhaustive": True, "max_deviations_completed": None}
+
+    t_start = time.time()
+    limit = cfg.get("deadline")
+    if cfg.get("time_limit"):
+        limit = min(limit, t_start + cfg["time_limit"]) if limit else t_start + cfg["time_limit"]
 
     def run_one(max_dev):
         ex = aio.Explorer(
             make, on_exec, observe=observe, max_choices=cfg.get("max_choices", 120), max_deviations=max_dev,
-            validate_mod=cfg.get("val_mod", 0), deadline=cfg.get("deadline"), on_step=on_step,
+            validate_mod=cfg.get("val_mod", 0), deadline=limit, on_step=on_step,
             watchdog_s=1 if _SPUN else WATCHDOG_S,
             granularity=cfg.get("granularity", "quiescence"), max_handles=cfg.get("max_handles", 20000), **ENV_KW)
         return ex.run()
@@ -502,6 +553,7 @@ def explore(task):
         total["handles_run"] += st["handles_run"]
         total["executor_calls"] += st["executor_calls"]
         total["traces_validated_against_impl"] += st["validated"]
+        total["max_deviations_in_a_schedule"] = max(total["max_deviations_in_a_schedule"], st["max_deviations_seen"])
         total["max_depth"] = max(total["max_depth"], st["max_depth"])
         total["max_enabled_choices"] = max(total["max_enabled_choices"], st["max_enabled"])
 
@@ -637,7 +689,7 @@ def tasks(tier):
                 for mbs in (2, 3):
                     out.append({"reqs": reqs, "mbs": mbs, "cache": list(cache) if cache else None,
                                 "prewarm": list(prewarm), "use_batching": True, "build": "prebuilt",
-                                "dev_iter": True, "max_dev": 12, "big": True})
+                                "dev_iter": True, "max_dev": 12, "big": True, "time_limit": 120})
         # loop-iteration granularity
         for m in multisets([B_A, B_B, B_E, G_ABA, G_EB, S_A], 2):
             for c in variants((m, ()), CACHES_MAIN, api_build=False):
@@ -648,7 +700,20 @@ def tasks(tier):
                     out.append({"reqs": [(kd, p, 1) for kd, p in m], "mbs": mbs,
                                 "cache": list(cache) if cache else None, "prewarm": list(prewarm),
                                 "use_batching": True, "build": "prebuilt", "granularity": "iteration",
-                                "max_choices": 600, "dev_iter": True, "max_dev": 40, "big": True})
+                                "max_choices": 600, "dev_iter": True, "max_dev": 40, "big": True, "time_limit": 90})
+    # two indexes with different embedding models and the same cache settings: requests of both, all orders
+    pool2 = [B_A, G_ABA, S_A] if tier == "quick" else [B_A, B_E, G_ABA, G_EB, S_A]
+    for x in pool2:
+        for y in pool2:
+            for second_round in (False, True):
+                reqs = [(x[0], x[1], 1, 0), (y[0], y[1], 2 if second_round else 1, 1)]
+                has_b = any(kd in "BS" for kd, _p, _r, _w in reqs)
+                for mbs in ((1, 2) if has_b else (2,)):
+                    for cache, prewarm in CACHES_ALL:
+                        if prewarm:
+                            continue
+                        out.append({"reqs": reqs, "mbs": mbs, "cache": list(cache) if cache else None, "prewarm": [],
+                                    "use_batching": True, "build": "prebuilt"})
     for c in out:
         c.setdefault("granularity", "quiescence")
     return out
@@ -660,7 +725,7 @@ def weight(cfg):
     w = 6.0 ** n
     if cfg.get("granularity") == "iteration":
         w *= 40
-    if any(r == 2 for _k, _p, r in cfg["reqs"]):
+    if any(r[2] == 2 for r in cfg["reqs"]):
         w /= 3
     if cfg.get("big"):
         w *= 1000
@@ -668,11 +733,20 @@ def weight(cfg):
 
 
 # ------------------------------------------------------------------ run
+def scratch_root():
+    """per-run scratch directory for the filesystem cache store (removed by the caller); on tmpfs when there
+    is one: 16 workers creating and unlinking small files stall an ext4 journal for seconds"""
+    shm = "/dev/shm"
+    if os.path.isdir(shm) and os.access(shm, os.W_OK | os.X_OK):
+        return tempfile.mkdtemp(prefix="vf_c19_", dir=shm)
+    return tempfile.mkdtemp(prefix="vf_c19_")
+
+
 def run(rep, tier):
     from vf import par
 
     lib()
-    base = tempfile.mkdtemp(prefix="vf_c19_")
+    base = scratch_root()
     try:
         _run(rep, tier, base, par)
     finally:
@@ -681,7 +755,7 @@ def run(rep, tier):
 
 def _run(rep, tier, base, par):
     ts = tasks(tier)
-    budget = 40 if tier == "quick" else 16 * 60
+    budget = 50 if tier == "quick" else 17 * 60
     t0 = time.time()
     deadline = t0 + budget
     val_mod = 20 if tier == "quick" else 50
@@ -689,8 +763,7 @@ def _run(rep, tier, base, par):
         c["id"] = i
         c["scratch"] = base
         c["val_mod"] = val_mod
-        # deviation-iterated tasks stop early so that the last started bound can finish or be dropped
-        c["deadline"] = deadline - (0 if not c.get("big") else budget * 0.15)
+        c["deadline"] = deadline      # the large deviation-iterated configurations also have a time_limit of their own
     if rep.seed:
         import random
 
@@ -745,7 +818,10 @@ def _run(rep, tier, base, par):
     rep.set("configurations_enumerated_exhaustively", n_exhaustive)
     rep.set("by_request_count", by_req)
     rep.set("deviation_bounded_configurations", dev_done[:40])
-    rep.set("max_deviations_completed", min(bounded) if bounded else None)
+    # every schedule of the exhaustively enumerated configurations was run, whatever its number of deviations
+    # (max_deviations_in_a_schedule); for the bounded ones the smallest completed bound is what can be claimed
+    rep.set("max_deviations_completed",
+            min(bounded) if dev_done else rep.cov.get("max_deviations_in_a_schedule", 0))
     rep.set("violation_classes", {s: {"schedules": v["n"], "smallest": v["what"]} for s, v in sorted(by_sig.items())})
     rep.set("violation_classes_found", len(by_sig))
     rep.set("violation_classes_not_in_known_findings", new)
@@ -766,6 +842,8 @@ def _run(rep, tier, base, par):
         "all hold timers have the same delay, so they fire in creation order; any timer may beat any model answer or arrival",
         "the embedding model always answers (no failures, no cancellation of requests); its answer depends on the "
         "texts it was given at call time only",
+        "a small family of configurations has two indexes with different embedding models that are given the same "
+        "cache settings (every other configuration has one index)",
         "texts from {'a','b','','c'}; request pool: _batch_get_embeddings(t), _get_embeddings([a,b,a] / ['',b] / []), "
         "search(t, max_results=1) on a 4-item index (prebuilt Annoy index handed to the constructor, or built through "
         "add_items/build which also warms the cache)",
@@ -786,16 +864,16 @@ def replay(rp):
 
     lib()
     cfg = dict(rp["config"])
-    cfg["reqs"] = [(kd, tuple(p) if isinstance(p, list) else p, r) for kd, p, r in cfg["reqs"]]
-    base = tempfile.mkdtemp(prefix="vf_c19_")
+    cfg["reqs"] = norm_reqs(cfg["reqs"])
+    base = scratch_root()
     try:
         make = maker(cfg, os.path.join(base, "c"))
         seen = {"calls": 0, "done": set(), "n": 0}
         sched = [tuple(tuple(y) if isinstance(y, list) else y for y in x) for x in rp["schedule"]]
         print(f"property C19 | {rp.get('signature')}")
         print(f"config: {public_cfg(cfg)}")
-        for k, (kd, p, r) in enumerate(cfg["reqs"]):
-            print(f"  {req_name(k, kd, p)}  (round {r})")
+        for k, (kd, p, r, wh) in enumerate(cfg["reqs"]):
+            print(f"  {req_name(k, kd, p, wh)}  (round {r})")
 
         def log(env, w):
             i = seen["n"]
@@ -807,17 +885,18 @@ def replay(rp):
             seen["done"].update(fin)
             on_step(env, w)
             print(f"  {label:8s} -> model calls issued {new_calls!r}; returned {fin!r}; "
-                  f"_req_queue={w.idx._req_queue!r} _req_results ids={sorted(w.idx._req_results)!r}; "
+                  f"_req_queue={[i._req_queue for i in w.indexes]!r} "
+                  f"_req_results ids={[sorted(i._req_results) for i in w.indexes]!r}; "
                   f"enabled next {[label_str(x) for x in env.enabled()]}")
 
         env, w, outcome = aio.run_script(make, sched, on_step=log, watchdog_s=20,
                                          granularity=cfg.get("granularity", "quiescence"), **ENV_KW)
         try:
             print(f"outcome: {outcome}")
-            for k, (kd, p, _r) in enumerate(cfg["reqs"]):
+            for k, (kd, p, _r, wh) in enumerate(cfg["reqs"]):
                 obs = render(kd, env.results.get(k))
-                exp = expected(kd, p)
-                print(f"  {req_name(k, kd, p)}\n     expected {exp}\n     observed {obs}"
+                exp = expected(kd, p, wh)
+                print(f"  {req_name(k, kd, p, wh)}\n     expected {exp}\n     observed {obs}"
                       f"{'' if obs == exp else '   <-- differs'}")
             for n, e in env.background_failures():
                 print(f"  background task {n} died: {type(e).__name__}: {e}")
